@@ -529,3 +529,48 @@ func VT_C01_List() {
 	}
 	vt.Reach("done")
 }
+
+// List (and Get) under combinations of read options: the include predicate is evaluated on the stored item and the
+// read mask is applied to what is returned - as filtering and then projecting the reference map does.
+func VT_C01_ListReadOptions() {
+	s := vtNewColl()
+	var ropts []ReadOption
+	include := vt.Choose("include", 2) == 1
+	if include {
+		ropts = append(ropts, WithInclude(func(id string, m proto.Message) bool { return m.(*T).DefaultInt32 > 0 }))
+	}
+	masked := vt.Choose("readMask", 2) == 1
+	if masked {
+		ropts = append(ropts, WithReadPaths(&T{}, "default_int64"))
+	}
+	list := s.c.List(ropts...)
+	// reference: stored items in id order, filtered on the stored body, then projected
+	order := make([]int, len(s.ids))
+	for i := range order {
+		order[i] = i
+	}
+	for i := 1; i < len(order); i++ {
+		for j := i; j > 0 && s.ids[order[j]] < s.ids[order[j-1]]; j-- {
+			order[j], order[j-1] = order[j-1], order[j]
+		}
+	}
+	var want []*T
+	for _, i := range order {
+		b := s.bodies[i]
+		if include && !(b.DefaultInt32 > 0) {
+			continue
+		}
+		if masked {
+			b = &T{DefaultInt64: b.DefaultInt64}
+		}
+		want = append(want, b)
+	}
+	vt.Assert(len(list) == len(want), "list-has-exactly-the-items-whose-stored-body-matches")
+	if len(list) == len(want) {
+		for k := range want {
+			vt.Assert(proto.Equal(list[k], want[k]), "listed-items-are-the-projected-stored-bodies-in-id-order")
+		}
+	}
+	s.check("list-with-read-options-changes-nothing")
+	vt.Reach("done")
+}
